@@ -512,7 +512,13 @@ class Fn:
         if k == "Assign":
             return s.assign(e["l"], e["r"], krest)
         if k == "Binary" and e["op"] in ("+=", "-="):
-            return s.assign(e["l"], {"k": "Binary", "op": e["op"][0], "l": e["l"], "r": e["r"]}, krest)
+            # primitive compound assignment: Rust evaluates the right operand first, then reads the place
+            tmp = s.fresh("rhs")
+            def with_r(b, tb):
+                s.env[tmp] = tb
+                s.sub[tmp] = b
+                return s.assign(e["l"], {"k": "Binary", "op": e["op"][0], "l": e["l"], "r": {"k": "Path", "path": [tmp]}}, krest)
+            return s.expr(e["r"], K(with_r))
         if k == "Macro":
             nm = e["path"][-1]
             if nm in ("assert", "debug_assert") :
